@@ -73,6 +73,10 @@ def rename_desc(desc, rng):
     return d, mp
 
 
+class LayoutMismatch(Exception):
+    pass
+
+
 def run_case(case):
     from vlib import bootstrap, dsl, pipeline
     from vlib.refmodel import Ref, maxdev
@@ -101,7 +105,7 @@ def run_case(case):
         fulls = []
         for t in range(r.T):
             if out[t].shape != r.lcm_shape(t):
-                raise AssertionError(f"layout: period {t} shape {out[t].shape} expected {r.lcm_shape(t)}")
+                raise LayoutMismatch(f"period {t}: value array has shape {out[t].shape}, the layout contract gives {r.lcm_shape(t)} for declared states {[s_ for s_, _ in d['states']]}")
             fulls.append(r.from_lcm_layout(out[t], t))
         return r, fulls
 
@@ -111,6 +115,10 @@ def run_case(case):
 
     try:
         rb, base = lcm_full(desc)
+    except LayoutMismatch as e:
+        res["violations"].append({"key": "layout_contract", "what": f"base specification: {e}"})
+        res["status"] = "violated"
+        return res
     except Exception as e:  # noqa: BLE001
         res["violations"].append({"key": pipeline.exc_key(e, "solve_base"), "what": pipeline.exc_text(e)})
         res["status"] = "violated"
@@ -124,6 +132,9 @@ def run_case(case):
         add("rewrite_" + name)
         try:
             r2, full2 = lcm_full(d2)
+        except LayoutMismatch as e:
+            res["violations"].append({"key": "layout_contract", "what": f"rewriting {name}: {e}"})
+            return
         except Exception as e:  # noqa: BLE001
             res["violations"].append({"key": pipeline.exc_key(e, "solve_" + name), "what": pipeline.exc_text(e) + f" (rewriting {name})"})
             return
